@@ -281,6 +281,20 @@ def main():
             compare(W, mode, idx, rng, sa, sb, desc, objs, draw_cap, witness)
 
         run_pair(node, hand, cs_opt, cs_hand, desc, witness, cx_opt, changed)
+        if mode == 'override' and changed:
+            # the rewritten hint itself, now written by the user and met by the SAME configuration (its occurrences of
+            # the keys are the user's own and are rewritten like any other), then the original hint again: what was
+            # generated for "A overridden by B" and for "B as written" must not be served for one another
+            try:
+                hand_again = hints.rebuild(hand, lambda n: mapping.get(n.src))
+                hand_again.hint()
+                W.count('override.rewritten_hint_under_same_configuration')
+                run_pair(hand, hand_again, cs_opt, cs_hand, f'(the by-hand hint as user hint) hint_overrides={dict(pairs)} on {hand.src} vs default on {hand_again.src}',
+                         dict(mode=mode, hint=hand.src, overrides=dict(pairs), by_hand=hand_again.src, after_hint=node.src), hints.CX0,
+                         hand_again.src != hand.src)
+                run_pair(node, hand, cs_opt, cs_hand, '(original hint again) ' + desc, dict(witness, after_hint=hand.src), cx_opt, changed)
+            except Exception:   # noqa
+                W.count('override.rewritten_hint_not_buildable')
         if mode == 'override':
             # the same root hint once more under a configuration overriding the same keys differently (and then under
             # the first configuration again): code generated for one set of overrides must not be served to another
